@@ -15,7 +15,7 @@ FUNCTIONS = ["xgcm.padding:_pad_face_connections", "xgcm.padding:_maybe_swap_dim
              "xgcm.padding:_pad_basic", "xgcm.grid:Grid._assign_face_connections", "xgcm.grid:Grid._1d_grid_ufunc_dispatch",
              "xgcm.grid_ufunc:apply_as_grid_ufunc", "xgcm.grid_ufunc:_pad_then_rechunk", "xgcm.grid:_select_grid_ufunc"]
 BOUNDS = {
-    "quick": {"decompositions": "(2,1),(1,2): all 64 D4 orientation pairs, (2,2): all 4096 quadruples; those expressible in the link format are run (counted in evidence), open and periodic domain",
+    "quick": {"decompositions": "(1,1): all 8 orientations of a single (self-linked when periodic) face, (2,1),(1,2): all 64 D4 orientation pairs, (2,2): all 4096 quadruples; those expressible in the link format are run (counted in evidence), open and periodic domain",
               "N": [2], "rules on unlinked edges": ["fill (symbolic)", "extend", "periodic"], "operators": ["diff", "min"], "to": ["left", "outer"],
               "face dim position": ["first", "after extra dim", "before extra dim"]},
     "thorough": {"decompositions": "+ (3,1),(1,3) all 512 triples each, (3,2)/(2,3) seeded sample of 20000 sextuples", "N": [2, 3],
@@ -35,7 +35,7 @@ def cases(tier):
     import os
     import random
     out = []
-    shapes = [(2, 1), (1, 2), (2, 2)] + ([(3, 1), (1, 3)] if tier == "thorough" else [])
+    shapes = [(1, 1), (2, 1), (1, 2), (2, 2)] + ([(3, 1), (1, 3)] if tier == "thorough" else [])
     for (Kx, Ky) in shapes:
         for periodic in (False, True):
             oris = expressible_orientations(Kx, Ky, 2, periodic)
@@ -121,7 +121,7 @@ def case(W, cfg):
         with warnings.catch_warnings():
             warnings.simplefilter("ignore")
             try:
-                grid = xgcm.Grid(ds, coords=AX_COORDS, periodic=False, boundary=rule,
+                grid = xgcm.Grid(ds, coords=AX_COORDS, periodic=False, boundary=rule, fill_value=2.5,
                                  face_connections={"face": table}, autoparse_metadata=False)
             except Exception as e:
                 W.fail("table-rejected:%s" % type(e).__name__, "geometrically consistent table refused: %s" % e)
